@@ -236,6 +236,12 @@ func (r *Results) Close() error {
 		<-r.done
 
 		err := r.joinedErrs()
+		// A Close that lands after the caller canceled the query must not turn the
+		// cancellation into a clean terminal state: Close is not an error state,
+		// but the cancellation existed before it.
+		if cerr := r.callerCtx.Err(); cerr != nil {
+			err = fmt.Errorf("query canceled: %w", cerr)
+		}
 		r.mu.Lock()
 		if !r.finalized {
 			r.finalized = true
